@@ -232,7 +232,8 @@ def add_header_to_file(
         ):
             # Only the beginning of such a file is read, in whole lines.
             readable = encoded[:_HEADER_BYTES].decode("utf-8", errors="replace")
-            readable = readable[: readable.rfind("\n") + 1]
+            if encoded[_HEADER_BYTES : _HEADER_BYTES + 1] not in (b"\n", b"\r"):
+                readable = readable[: readable.rfind("\n") + 1]
         try:
             extract_reuse_info(readable)
         except (ExpressionError, ParseError):
